@@ -326,3 +326,52 @@ def solve_prog(decls, cs, base, fixed):
         ok, w = brute_sat(decls, cs, base, fixed)
         return w if ok else None
     return z3_solve(decls, cs, base, fixed)
+
+
+def brute_models(decls, cs, base, fixed, limit=2_000_000):
+    """All models of the aux variables (generator)."""
+    names, doms = [], []
+    for k, d in enumerate(decls):
+        if d == "b":
+            names.append(f"b{base + k}")
+            doms.append([False, True])
+        else:
+            names.append(f"i{base + k}")
+            doms.append(list(range(int(d[1]), int(d[2]) + 1)))
+    total = 1
+    for d in doms:
+        total *= len(d)
+        if total > limit:
+            raise OverflowError("search space too large for brute force")
+    for combo in itertools.product(*doms):
+        asg = dict(fixed)
+        asg.update(zip(names, combo))
+        if all(ev(c, asg) is True for c in cs):
+            yield asg
+
+
+def forced_values(decls, cs, base, fixed, names):
+    """(satisfiable, {name: value or None if not forced}) for the listed aux variable names."""
+    if has_native(cs):
+        vals = None
+        for m in brute_models(decls, cs, base, fixed):
+            if vals is None:
+                vals = {k: m[k] for k in names}
+            else:
+                for k in names:
+                    if vals[k] is not None and vals[k] != m[k]:
+                        vals[k] = None
+        return (vals is not None), (vals or {})
+    m = z3_solve(decls, cs, base, fixed)
+    if m is None:
+        return False, {}
+    import z3
+    vals = {}
+    for k in names:
+        v = m[k]
+
+        def differs(var, k=k, v=v):
+            return var[k] != (z3.BoolVal(v) if isinstance(v, bool) else z3.IntVal(v))
+        m2 = z3_solve(decls, cs, base, fixed, extra=differs)
+        vals[k] = v if m2 is None else None
+    return True, vals
